@@ -344,6 +344,46 @@ def zeros_of(t, shapes=(), like=(), allow_empty=False):
     return False
 
 
+def empty_index_arrays(rep, prog, qnames, rule):
+    """np.array(<list that may be empty>) is float64 when the list is empty, and numpy refuses a float array as an index
+    (IndexError) - the list itself would have been accepted.  Reported: an index / store position that is np.array(...) /
+    np.asarray(...) of a list built by a filter or comprehension, without an integer dtype."""
+    n = 0
+    for q in qnames:
+        f = prog.funcs.get(q)
+        if f is None:
+            continue
+        S = Sym(prog)
+        try:
+            run_function(S, f)
+        except Inconclusive:
+            continue
+        sus = None
+        for fact in S.facts:
+            if fact.qname != q:
+                continue
+            idxs = []
+            if fact.kind == "store":
+                idxs.append(fact.idx)
+            for t in [getattr(fact, "value", None), getattr(fact, "term", None)] + list(getattr(fact, "args", []) or []):
+                if t is not None:
+                    idxs += [x[2] for x in walk(t) if isinstance(x, tuple) and len(x) == 3 and x[0] == "sub"]
+            for ix in idxs:
+                parts = list(ix[1]) if isinstance(ix, tuple) and ix and ix[0] == "tuple" else [ix]
+                for p_ in parts:
+                    if isinstance(p_, tuple) and len(p_) == 4 and p_[0] == "ext" and p_[1] in ("numpy.array", "numpy.asarray") and len(p_[2]) == 1 and \
+                            "dtype" not in dict(p_[3]) and isinstance(p_[2][0], tuple) and p_[2][0] and \
+                            (p_[2][0][0] == "comp" or (p_[2][0][0] == "ext" and p_[2][0][1] in ("list", "filter", "sorted"))):
+                        sus = (fact, p_)
+        n += 1
+        if sus is not None:
+            rep.bad(rule, fwhere(f, sus[0].node), "%s indexes with %s: when the list is empty the array is float64 and numpy raises IndexError "
+                    "(an index list, or dtype=int, would be accepted)" % (f.name, fmt(sus[1])[:70]))
+        else:
+            rep.ok(rule, fwhere(f), "%s: no index array that turns float when empty" % f.name)
+    return n
+
+
 def message_safe(rep, S, f, rule):
     """building the exception must not raise another one: `"...%s" % x` unpacks x when it is a tuple (TypeError instead of the
     documented exception), so a bare right operand that the same function treats as a possible tuple is reported"""
